@@ -52,6 +52,11 @@ func routedPath(u *url.URL) string {
 	return p
 }
 
+var h04aSuffixes = []string{
+	"/..%2F..", "/..%2f..%2f", "/x/..%2F..%2F..%2Fpublic", "/%2E%2E/public", "/%2e%2e%2fpublic", "/.%2E/.%2E/public",
+	"/x%2F..%2F..%2F..", "%2F..%2Fpublic", "/..;/public", "/x/%2E/%2E%2E/%2E%2E/y",
+}
+
 // H04a: for every request target the HTTP server accepts (net/http applies url.ParseRequestURI to the
 // request line), if the path echo routes on is /internal or lies below it, the auth skipper built by
 // the real applyAuthMiddleware must NOT skip authentication.
@@ -62,6 +67,13 @@ func H04a() {
 	p := vString(pre)
 	vTag("post")
 	q := vString(post)
+	// or one of the suffixes with encoded slashes and dot segments (the router dispatches on the escaped path, where
+	// "..%2F.." is one segment that a :param route accepts; the decoded path leaves /internal)
+	vTag("post_template")
+	if t := vChoice(len(h04aSuffixes) + 1); t > 0 {
+		vCover("suffix-template")
+		q = h04aSuffixes[t-1]
+	}
 	target := p + "/internal" + q
 
 	engine := Engine{server: NewMultiEcho()}
